@@ -48,6 +48,7 @@ type fakeCF struct {
 	zones   []*cfZoneT
 	reqs    int
 	faults  map[int]bool
+	faultSalt int
 	patches []string
 	badAuth bool
 }
@@ -61,7 +62,18 @@ func (f *fakeCF) handle(w http.ResponseWriter, req *http.Request) {
 		f.badAuth = true
 	}
 	if f.faults[n] {
-		http.Error(w, `{"success":false,"errors":[{"code":10000,"message":"scripted"}]}`, 403)
+		// an API refusal comes in several shapes: an HTTP error with error entries, or HTTP 200 with
+		// "success": false and an empty / absent errors array
+		switch (n + f.faultSalt) % 3 {
+		case 0:
+			http.Error(w, `{"success":false,"errors":[{"code":10000,"message":"scripted"}]}`, 403)
+		case 1:
+			w.Header().Set("content-type", "application/json")
+			w.Write([]byte(`{"success":false,"errors":[],"result":null}`))
+		default:
+			w.Header().Set("content-type", "application/json")
+			w.Write([]byte(`{"success":false}`))
+		}
 		return
 	}
 	writeJSON := func(v any) {
@@ -273,6 +285,7 @@ func genC20(env *core.Env, emit func(core.Case)) {
 			fake.mu.Lock()
 			fake.reqs = 0
 			fake.faults = faults
+			fake.faultSalt = r.IntN(3)
 			fake.patches = nil
 			for _, z := range fake.zones {
 				for _, rc := range z.Recs {
